@@ -40,6 +40,12 @@ def build_lib(variant, quiet=True):
     cc, libflags, _, _, _ = VARIANTS[variant]
     d = os.path.join(BUILD, variant, "lib")
     os.makedirs(d, exist_ok=True)
+    libflags = libflags + " -Dmalloc=gmsim_lib_malloc"      # allocator seam: the library's own malloc calls (wraps.c)
+    stamp = os.path.join(d, "flags.stamp")
+    if os.path.exists(os.path.join(d, "build.ninja")) and (not os.path.exists(stamp) or open(stamp).read() != libflags):
+        os.remove(os.path.join(d, "build.ninja"))
+        if os.path.exists(os.path.join(d, "CMakeCache.txt")):
+            os.remove(os.path.join(d, "CMakeCache.txt"))
     if not os.path.exists(os.path.join(d, "build.ninja")):
         cmd = ["cmake", "-G", "Ninja", "-S", REPO, "-B", d, "-DBUILD_SHARED_LIBS=OFF",
                "-DCMAKE_BUILD_TYPE=", "-DCMAKE_C_COMPILER=" + cc, "-DCMAKE_C_FLAGS=" + libflags + " -Wno-error -w"]
@@ -47,6 +53,7 @@ def build_lib(variant, quiet=True):
         if rc != 0:
             sys.stderr.write(out)
             raise SystemExit("cmake configure failed for " + variant)
+        open(stamp, "w").write(libflags)
     rc, out = run(["cmake", "--build", d, "--target", "gmssl", "-j", "16"])
     if rc != 0:
         sys.stderr.write(out[-6000:])
